@@ -100,8 +100,8 @@ Definition run_glwe_compressed (ps : list Z) (vs : list (list Z)) : option (list
    applicable: 2); it is produced by the generator from the shape alone, never from the implementation's outputs *)
 (* 19004 LWECompressed -> decompress_lwe: vs = [pt; s; ua (size*(n+1) u64 of Source::new(stored seed)); e (1); expected flags]
    out = [decompressed ciphertext (limb-major, word 0 of each limb = body); [equals the standard encryption; serialisation round trip]].
-   As the code is: decompress_lwe asserts res.lwe_layout() == other.lwe_layout(), and an LWECompressed reports the ring degree of its
-   one-coefficient body vector, 1: the call panics for every LWE dimension other than 1 (no words, flag 0) *)
+   Since 4fb6b93 decompress_lwe compares radix and size only (an LWECompressed holds just the body; the LWE dimension is the
+   receiver's): every LWE dimension decompresses to the standard ciphertext *)
 Definition run_lwe_compressed (ps : list Z) (vs : list (list Z)) : option (list (list Z)) :=
   let n := np ps 1 in let b := p ps 2 in let size := np ps 3 in let nk := p ps 8 in
   let pt := v vs 0 in let s := v vs 1 in let us := stream (v vs 2) in let e := nthZ (v vs 3) 0 in
@@ -109,8 +109,7 @@ Definition run_lwe_compressed (ps : list Z) (vs : list (list Z)) : option (list 
   match lwe_enc_body b size nk pt s a e with
   | None => None
   | Some body =>
-      if Nat.eqb n 1 then Some [concat (map (fun j => nthZ body j :: nth j a []) (seq 0 size)); [1; 1]]
-      else Some [[]; [0; 1]]
+      Some [concat (map (fun j => nthZ body j :: nth j a []) (seq 0 size)); [1; 1]]
   end.
 
 Definition run_c19 (code : Z) (ps : list Z) (vs : list (list Z)) : option (list (list Z)) :=
